@@ -18,8 +18,9 @@ step with the right value up to case (`Enc`), NUL and LF units allowed anywhere 
 answers true, whatever follows. The syntactic forms of a unit are theorems too: a literal byte
 (`unit_lit`), a decimal reference with `;` and any number of leading zeros (`unit_dec`), the same
 without `;` before a byte that cannot continue it (`unit_dec_open`), a hexadecimal reference with `;`,
-either case of `x` and of the digits (`unit_hex`; the hex map is a fact about the regenerated table).
-Not a theorem: the hexadecimal form without `;` (covered by the enumeration oracle). -/
+either case of `x` and of the digits (`unit_hex`; the hex map is a fact about the regenerated table),
+and the hexadecimal form without `;` before a byte that is not a hexadecimal digit (`unit_hex_open`) —
+every encoding form named by the property. -/
 namespace LibInj.Properties.C19
 open LibInj LibInj.Xss LibInj.Properties.C04
 
@@ -120,6 +121,19 @@ theorem enc_hex (x : UInt8) (hx : x = 120 ∨ x = 88) (ds sc e : Bytes) (C : UIn
     Enc (C :: sc) (([38, 35, x] ++ ds ++ [59]) ++ e) :=
   Enc.char C _ _ (unit_hex x hx ds e hne hall hv) (by omega) hC h
 
+/-- a decimal reference without `;`, when the next byte (if any) is neither a digit nor `;` -/
+theorem enc_dec_open (ds sc e : Bytes) (C : UInt8) (hne : ds ≠ []) (hall : ds.all isDig = true) (hv : decFrom 0 ds ≤ 0x1000FF)
+    (hst : Stops isDig e) (h32 : 32 < decFrom 0 ds) (hC : accByte (decFrom 0 ds : Nat) = C) (h : Enc sc e) :
+    Enc (C :: sc) (([38, 35] ++ ds) ++ e) :=
+  Enc.char C _ _ (unit_dec_open ds e hne hall hv hst) (by omega) hC h
+
+/-- a hexadecimal reference without `;`, when the next byte (if any) is neither a hexadecimal digit nor `;` -/
+theorem enc_hex_open (x : UInt8) (hx : x = 120 ∨ x = 88) (ds sc e : Bytes) (C : UInt8) (hne : ds ≠ [])
+    (hall : ds.all isHex = true) (hv : hexFrom 0 ds ≤ 0x1000FF) (hst : Stops isHex e)
+    (h32 : 32 < hexFrom 0 ds) (hC : accByte (hexFrom 0 ds : Nat) = C) (h : Enc sc e) :
+    Enc (C :: sc) (([38, 35, x] ++ ds) ++ e) :=
+  Enc.char C _ _ (unit_hex_open x hx ds e hne hall hv hst) (by omega) hC h
+
 /-- a literal NUL or LF between units -/
 theorem enc_nul (c : UInt8) (hc : c = 0 ∨ c = 10) (sc e : Bytes) (h : Enc sc e) : Enc sc (c :: e) :=
   Enc.skip [c] c.toNat (unit_lit c e (by rcases hc with rfl | rfl <;> decide))
@@ -136,6 +150,14 @@ example : Enc [74, 65, upperAscii 86, 65] ([38, 35, 120] ++ [54, 65] ++ [59] ++ 
   have h5 := enc_dec [48,48,57,55] _ _ 65 (by decide) (by decide) (by decide) (by decide) (by decide) h4
   have h6 := enc_hex 120 (Or.inl rfl) [54, 65] _ _ 74 (by decide) (by decide) (by decide) (by decide) (by decide) h5
   exact h6
+
+/-- non-vacuity of the forms without `;`: `&#106&#X41vascript:` spells `JA` -/
+example : Enc [74, 65] (([38, 35] ++ [49, 48, 54]) ++ (([38, 35, 88] ++ [52, 49]) ++ bs "vascript:")) := by
+  have h0 : Enc [] (bs "vascript:") := Enc.done _
+  have h1 := enc_hex_open 88 (Or.inr rfl) [52, 49] [] (bs "vascript:") 65 (by decide) (by decide) (by decide)
+    (Or.inr ⟨118, bs "ascript:", by decide +kernel, by decide, by decide⟩) (by decide) (by decide) h0
+  exact enc_dec_open [49, 48, 54] _ _ 74 (by decide) (by decide) (by decide)
+    (Or.inr ⟨38, _, rfl, by decide, by decide⟩) (by decide) (by decide) h1
 
 example : (variants javascript).length = 132 := by decide +kernel
 
